@@ -446,3 +446,193 @@ impl Machine {
         }
     }
 }
+
+// ------------------------------------------------------------------------------------------
+// ApiProbe: the public API (Connection, Channel, Queue, Exchange, Consumer, Delivery, Get) over
+// the I/O-thread ends of its queues, single-threaded: replies are pre-loaded, submissions are
+// read back.
+// ------------------------------------------------------------------------------------------
+
+use super::{Channel0Handle, ChannelSlot};
+use crate::{AmqpProperties, Channel, Connection, Delivery, FieldTable};
+use amq_protocol::protocol::basic::{Deliver, GetOk};
+use amq_protocol::protocol::channel::AMQPMethod as AmqpChannelMethod;
+use amq_protocol::protocol::channel::OpenOk as ChannelOpenOk;
+
+/// What a client handle submitted to the I/O thread.
+pub enum Sent {
+    Send(Vec<u8>),
+    ConnectionClose(Vec<u8>),
+    SetReturnHandler(Option<Sender<Return>>),
+    SetPubConfirmHandler(Option<Sender<Confirm>>),
+}
+
+pub struct ApiProbe {
+    ch0_slot: Option<Channel0Slot>,
+    slots: HashMap<u16, ChannelSlot>,
+    bound: usize,
+}
+
+impl ApiProbe {
+    /// A `Connection` as `IoLoop::start` hands it out after a handshake that negotiated
+    /// `frame_max`; `io_result` is what the (stand-in) I/O thread ends with when joined.
+    pub fn new(
+        frame_max: u32,
+        server_properties: FieldTable,
+        io_result: std::result::Result<(), Error>,
+        io_panics: bool,
+    ) -> (ApiProbe, Connection) {
+        let bound = 1 << 16;
+        let (ch0_slot, ch0_handle) = Channel0Slot::new(bound);
+        let channel0 = Channel0Handle::new(ch0_handle, frame_max as usize);
+        let join_handle = std::thread::spawn(move || {
+            if io_panics {
+                panic!("scripted I/O thread panic");
+            }
+            io_result
+        });
+        let connection = Connection::verif_from_parts(join_handle, channel0, server_properties);
+        (
+            ApiProbe {
+                ch0_slot: Some(ch0_slot),
+                slots: HashMap::new(),
+                bound,
+            },
+            connection,
+        )
+    }
+
+    fn ch0(&self) -> &Channel0Slot {
+        self.ch0_slot.as_ref().expect("I/O side is gone")
+    }
+
+    /// Make the next `open_channel` succeed with channel `id` (allocation reply + Channel.OpenOk).
+    pub fn preload_open(&mut self, id: u16) {
+        let (slot, handle) = ChannelSlot::new(self.bound, id);
+        let _ = self.ch0().alloc_chan_rep_tx.try_send(Ok(handle));
+        let _ = slot.tx.try_send(Ok(ChannelMessage::Method(AMQPClass::Channel(
+            AmqpChannelMethod::OpenOk(ChannelOpenOk { channel_id: String::new() }),
+        ))));
+        self.slots.insert(id, slot);
+    }
+
+    /// Make the next `open_channel` fail in the allocator.
+    pub fn preload_alloc_err(&mut self, err: Error) {
+        let _ = self.ch0().alloc_chan_rep_tx.try_send(Err(err));
+    }
+
+    /// Queue a method as the server's reply on channel `id` (0 = the connection's own handle).
+    pub fn preload_reply(&mut self, id: u16, method: AMQPClass) -> bool {
+        let msg = Ok(ChannelMessage::Method(method));
+        if id == 0 {
+            self.ch0().common.tx.try_send(msg).is_ok()
+        } else {
+            match self.slots.get(&id) {
+                Some(s) => s.tx.try_send(msg).is_ok(),
+                None => false,
+            }
+        }
+    }
+
+    pub fn preload_err(&mut self, id: u16, err: Error) -> bool {
+        if id == 0 {
+            self.ch0().common.tx.try_send(Err(err)).is_ok()
+        } else {
+            match self.slots.get(&id) {
+                Some(s) => s.tx.try_send(Err(err)).is_ok(),
+                None => false,
+            }
+        }
+    }
+
+    /// Queue a ConsumeOk; the returned sender is the consumer's queue as the I/O thread holds it.
+    pub fn preload_consume_ok(&mut self, id: u16, tag: &str) -> Option<Sender<ConsumerMessage>> {
+        let slot = self.slots.get(&id)?;
+        let (tx, rx) = crossbeam_channel::unbounded();
+        slot.tx
+            .try_send(Ok(ChannelMessage::ConsumeOk(tag.to_string(), rx)))
+            .ok()?;
+        Some(tx)
+    }
+
+    pub fn preload_get(&mut self, id: u16, get: Option<Get>) -> bool {
+        match self.slots.get(&id) {
+            Some(s) => s.tx.try_send(Ok(ChannelMessage::GetOk(Box::new(get)))).is_ok(),
+            None => false,
+        }
+    }
+
+    /// A delivery as the collector builds it for channel `id`.
+    pub fn make_delivery(id: u16, deliver: Deliver, body: Vec<u8>, properties: AmqpProperties) -> Delivery {
+        Delivery::new(id, deliver, body, properties).1
+    }
+
+    /// A get result as the collector builds it for channel `id`.
+    pub fn make_get(id: u16, get_ok: GetOk, body: Vec<u8>, properties: AmqpProperties) -> Get {
+        let message_count = get_ok.message_count;
+        Get {
+            delivery: Delivery::new_get_ok(id, get_ok, body, properties),
+            message_count,
+        }
+    }
+
+    /// Everything submitted through channel `id`'s handle since the last call, in order.
+    pub fn take_sent(&mut self, id: u16) -> Vec<Sent> {
+        let rx = if id == 0 {
+            match self.ch0_slot.as_ref() {
+                Some(s) => &s.common.rx,
+                None => return Vec::new(),
+            }
+        } else {
+            match self.slots.get(&id) {
+                Some(s) => &s.rx,
+                None => return Vec::new(),
+            }
+        };
+        let mut out = Vec::new();
+        while let Ok(m) = rx.try_recv() {
+            out.push(match m {
+                IoLoopMessage::Send(b) => Sent::Send(b[0..].to_vec()),
+                IoLoopMessage::ConnectionClose(b) => Sent::ConnectionClose(b[0..].to_vec()),
+                IoLoopMessage::SetReturnHandler(h) => Sent::SetReturnHandler(h),
+                IoLoopMessage::SetPubConfirmHandler(h) => Sent::SetPubConfirmHandler(h),
+            });
+        }
+        out
+    }
+
+    pub fn take_alloc_requests(&mut self) -> Vec<Option<u16>> {
+        let mut out = Vec::new();
+        if let Some(s) = self.ch0_slot.as_ref() {
+            while let Ok(r) = s.alloc_chan_req_rx.try_recv() {
+                out.push(r);
+            }
+        }
+        out
+    }
+
+    pub fn take_blocked_registrations(&mut self) -> Vec<Sender<ConnectionBlockedNotification>> {
+        let mut out = Vec::new();
+        if let Some(s) = self.ch0_slot.as_ref() {
+            while let Ok(r) = s.set_blocked_rx.try_recv() {
+                out.push(r);
+            }
+        }
+        out
+    }
+
+    /// The I/O thread lets go of channel `id` (as after a channel close).
+    pub fn drop_slot(&mut self, id: u16) {
+        self.slots.remove(&id);
+    }
+
+    /// The I/O thread is gone: every queue end it owned is dropped.
+    pub fn drop_io(&mut self) {
+        self.slots.clear();
+        self.ch0_slot = None;
+    }
+}
+
+/// `Channel` is `!Sync` but the probe is single-threaded; nothing to add here.
+#[allow(dead_code)]
+fn _channel_type(_: &Channel) {}
